@@ -12,7 +12,15 @@
 (* the code is predict no failure; a second instance of the walkers with every switch TRUE          *)
 (* (Old: the repaired defects) is consulted only for an observation the current walkers do not      *)
 (* explain, so that a defect that comes back is reported under its own signature.                   *)
+(* Records with fam # "" are the recorded LONG ACYCLIC CHAIN families (harness `c13 chains`): the    *)
+(* document is ChainDoc(fam, len) with len up to 100 000, run on a thread whose stack holds between  *)
+(* StackFrames (certainly) and StackFramesMax (at most) frames of a recursive walker.  They are      *)
+(* judged with the closed forms ChainOutcomeS that MC_Queries checks against the walker automata:    *)
+(* a crash of the call a walker serves is named *.depth when the walker, as the code is, needs more  *)
+(* than StackFrames frames on this chain; predictions are made only where both stack sizes agree.    *)
 EXTENDS Queries, Json, IOUtils, TLC
+
+CONSTANT StackFramesMax
 
 Old == INSTANCE Queries WITH Dev_NextCycle <- TRUE, Dev_FirstCycle <- TRUE, Dev_KidsCycle <- TRUE,
                              Dev_DestIndex <- TRUE, Dev_NdUnwrapD <- TRUE, Dev_NdKeyStr <- TRUE,
@@ -105,7 +113,55 @@ Drift(d, p, r) ==
     IN one(r.outl, p.outl) + one(r.toc, p.toc) + S[NObj(d)]
        + B(r.pages.t = "ok" /\ (p.pages.pc # "ok" \/ r.pages.ids # p.pages.ids))
 
-Judge(rec) ==
+\* ---- the recorded chain families ------------------------------------------------------------------
+FamWalker(q) ==
+    CASE q \in {"get_page_resources", "get_page_fonts", "extract_text", "extract_text_chunks"} -> "rsrc"
+      [] q = "get_outlines" -> "outl" [] q = "get_toc" -> "toc"
+      [] q = "get_named_destinations" -> "nd" [] q = "dereference" -> "deref"
+      [] OTHER -> ""
+FamId(o) == IF o.q \in {"extract_text", "extract_text_chunks"} THEN 3 ELSE o.id      \* text extraction reads page 1 = object 3
+
+FamSig(rec, o) ==
+    LET ww == FamWalker(o.q)
+        pr == ChainOutcomeS(rec.fam, rec.len, ww, FamId(o), StackFrames)
+    IN IF ww # "" /\ o.kind = "crash" /\ pr.pc = "overflow" THEN pr.cls ELSE o.q \o "." \o o.kind
+
+\* a prediction both stack sizes agree on, else "unsure"
+FamPred(rec, ww, id) ==
+    LET a == ChainOutcomeS(rec.fam, rec.len, ww, id, StackFrames)
+        b == ChainOutcomeS(rec.fam, rec.len, ww, id, StackFramesMax)
+    IN IF a = b THEN a.pc ELSE "unsure"
+
+FamDrift(rec) ==
+    LET B(x) == IF x THEN 1 ELSE 0
+        r == rec.res
+        one(tag, p) == B(p # "unsure" /\ tag \in {"ok", "err", "crash"} /\ tag # (IF p = "overflow" THEN "crash" ELSE p))
+    IN IF rec.fam \notin ChainFams THEN 0        \* families only the harness knows (annots, fontchain, length): totality only
+       ELSE
+       one(r.outl, FamPred(rec, "outl", 0)) + one(r.toc, FamPred(rec, "toc", 0))
+       + one(r.nd, FamPred(rec, "nd", ChainHead)) + one(r.deref, FamPred(rec, "deref", ChainHead))
+       + one(r.rsrc.t, FamPred(rec, "rsrc", 3))
+       + B(r.rsrc.t = "ok" /\ r.rsrc.n # ChainRsrcN(rec.fam, rec.len))
+       + B(r.cont.t = "ok" /\ r.cont.n # ChainContN(rec.fam, rec.len))
+       + B(rec.fam # "pagekids" /\ r.pages.t = "ok" /\ r.pages.n # 1)
+
+FamPBad(rec) ==
+    LET E(q, i, ww) == IF FamPred(rec, ww, i) = "overflow"
+                       THEN <<[q |-> q, id |-> i, pc |-> "overflow",
+                               cls |-> ChainOutcomeS(rec.fam, rec.len, ww, i, StackFrames).cls]>> ELSE <<>>
+    IN E("get_outlines", 0, "outl") \o E("get_toc", 0, "toc") \o E("get_named_destinations", ChainHead, "nd")
+       \o E("get_page_resources", 3, "rsrc")
+
+JudgeFam(rec) ==
+    LET sigs == [j \in 1..Len(rec.obs) |-> FamSig(rec, rec.obs[j])]
+        dr   == IF rec.ran THEN FamDrift(rec) ELSE 0
+    IN [v     |-> IF Len(rec.obs) > 0 THEN "bad" ELSE IF dr > 0 THEN "ok-drift" ELSE "ok",
+        sigs  |-> sigs,
+        drift |-> dr,
+        pbad  |-> FamPBad(rec),
+        pwas  |-> <<>>]
+
+JudgeDoc(rec) ==
     LET d    == rec.doc
         p    == Pred(d)
         sigs == [j \in 1..Len(rec.obs) |-> Sig(d, p, rec.obs[j])]
@@ -115,6 +171,8 @@ Judge(rec) ==
         drift |-> dr,
         pbad  |-> PBad(d, p),
         pwas  |-> PBad(d, PredOld(d))]     \* calls the repaired defects would have broken (anti-vacuity of the document set)
+
+Judge(rec) == IF rec.fam # "" THEN JudgeFam(rec) ELSE JudgeDoc(rec)
 
 Init == l = 1
 Next == /\ l <= Len(Recs)
